@@ -103,6 +103,48 @@ PROPS = {
         ],
         trusted=STD_TRUST,
     ),
+    "C10": dict(
+        units=["parse"],
+        level="proof",
+        min_obligations=40,
+        replay_family="c10",
+        bounded=[dict(family="c10", what="next_value loop vs next_datum / value_iter / datum_iter / Iterator for Parser: same items, same error, same end; Ref walkers vs Value walkers",
+                      bound="49 texts (proper, dotted, bracketed, quoted, nested, truncated and malformed lists/vectors) x 5 option sets x 3 sources x 4 iteration styles")],
+        explanation="PROVED (Verus, unbounded): datum.rs is extracted from /repo: the span tree of every Datum the parser returns mirrors the value's shape "
+                    "(shape_ok: established by Datum::primitive/vec/cons/quotation, by parse_vector_meta, and by parse_list_meta through its two &mut cursors "
+                    "with a prophecy invariant; returned by next_datum/expect_datum); under that invariant datum::ListIter::next yields exactly what the "
+                    "documented list-iterator protocol (the same abstract machine li_step/li_yield that cons::ListIter is verified against in C15) yields on the "
+                    "value, its expect(\"badly shaped...\") and Ref::as_pair's unreachable!() are dead, Ref::as_pair/list_iter/peek/value, Datum::value and "
+                    "Value::from(datum) return the value-side components. next_datum carries the same progress / end-of-input / depth / read-error clauses as next_value. "
+                    "NOT PROVED: that next_datum returns the same VALUE as next_value (two unary contracts cannot relate the duplicated token-to-value code without a "
+                    "full functional specification of the reader) - that part is a BOUNDED stand-in run on every check (coverage.bounded), never counted as proved.",
+        assumptions=[
+            "derived Clone of [SpanInfo; 2] returns an equal value (vx_clone_meta)",
+            "Ref::vector_iter / VectorIter (iter::Zip of two slice iterators), From<Ref> for Datum, AsRef/Deref for Ref are not under contract",
+            "impl Iterator for datum::ListIter is verified as an inherent method (its contract needs a precondition)",
+        ],
+        not_covered=["value equality of next_datum and next_value results (bounded stand-in only)", "Ref::vector_iter, VectorIter::next", "value_iter / datum_iter / Iterator for Parser"],
+        trusted=STD_TRUST,
+    ),
+    "C11": dict(
+        units=["parse"],
+        level="proof",
+        min_obligations=25,
+        replay_family="c11",
+        bounded=[dict(family="c11", what="every sub-datum reachable through list_iter / vector_iter: inside its parent, after its predecessor, covered text re-parses to its value, "
+                                         "quote heads cover the shorthand, identical spans from str / slice / reader",
+                      bound="27 texts (multi-line, non-ASCII, nested, dotted, quoted) x 2 option sets x 3 sources")],
+        explanation="PROVED (Verus, unbounded): Read::position of all three sources (SliceRead::position_of_index loop, StrRead delegation, IoRead over "
+                    "LineColIterator's counters and the position remembered in front of a peeked byte) equals pos_line/pos_col of the bytes CONSUMED so far, for every "
+                    "input and every peek/next/discard history - so the three sources report identical positions; next_datum/expect_datum return a datum whose own "
+                    "span is [pos(input[..a]), pos(input[..b])) with a = offset of the first byte after leading trivia, b = offset reached on return, a < b <= len "
+                    "(inside the input, non-empty, starts at the datum not at the whitespace); Datum::quotation gives the head the span handed in and the whole form "
+                    "start-of-shorthand..end-of-quoted-datum. NOT PROVED: nesting / sibling ordering of child spans inside lists, and that the covered text re-parses to "
+                    "the sub-datum (needs a functional specification of the reader): BOUNDED stand-in run on every check (coverage.bounded).",
+        assumptions=["the stream model ByteIter (see C06) for IoRead; fewer than usize::MAX bytes"],
+        not_covered=["child-span containment/ordering and re-parse of covered text (bounded stand-in only)"],
+        trusted=STD_TRUST,
+    ),
     "C12": dict(
         units=["parse"],
         level="proof",
@@ -127,9 +169,9 @@ PROPS = {
                     "unread input), the parser invariant 1 <= remaining_depth <= 128 restored on EVERY exit, and a recursion measure (remaining_depth, rank) "
                     "that must strictly decrease at every recursive call - so native recursion depth is bounded by the depth budget, for all bytes, all "
                     "option sets and any source satisfying the Read contract.",
-        assumptions=["the datum API is not yet under contract: see not_covered",
+        assumptions=[
                      "allocation failure and stack size are not modelled (Vec::push assumed to succeed)"],
-        not_covered=["next_datum / parse_list_meta / parse_vector_meta", "f64_from_parts body (float arithmetic)"],
+        not_covered=["f64_from_parts body (float arithmetic)", "value_iter / datum_iter / Iterator for Parser / from_* entry points"],
         trusted=STD_TRUST,
     ),
 }
